@@ -95,6 +95,7 @@ class Builder:
                  ("efunp", 2), ("mapfp", 3), ("mapstr", 2), ("filterfp", 2), ("sortfp", 2), ("unique", 2), ("mapmap", 2), ("filtermap", 1), ("uniquemap", 2), ("mapstring", 2), ("implodefp", 2),
                  ("message", 2 if main and not self.msg_used and not self.no_cg else 0),
                  ("selfdestruct", 2 if main and not self.in_rep else 0),
+                 ("nested", 4 if main and not self.in_rep else 0),
                  ("catch", 7), ("raise", 3), ("throw", 2), ("safe", 3 if main and not self.in_safe else 0), ("setcg", 2 if main and self.use_setcg and not self.no_cg else 0),
                  ("install", 2 if main and not self.use_setcg else 0), ("installbad", 2 if main and not self.use_setcg else 0), ("load", 2 if main and not self.in_rep else 0),
                  ("clone", 2 if main else 0),
@@ -206,6 +207,25 @@ class Builder:
             self.files[fctx]["fns"].append("void msgbody () { %s (); }" % f)
             stmts.append('message ("c", "hello", find_object ("/c05/user"));')
             ops.append("(tmp 3 (cb other u1 2 2 (call other %s 0 0 (call local %s 0 0 %s))))" % (t, t, " ".join(o)))
+        elif k == "nested":
+            # efun X whose callback runs efun Y; the inner one fails (generated body ending in an error), the outer callback
+            # catches it and the outer efun goes on; its result is compared by value
+            outer = rng.choice(sorted(NEST))
+            inner = outer if rng.chance(1, 2) else rng.choice(["sort", "map", "uniquemap", "unique"])
+            self.in_rep += 1
+            self.plain += 1
+            b, o = self.sub(fctx, depth)
+            self.plain -= 1
+            self.in_rep -= 1
+            i = self.fresh()
+            f = self.fn(fctx, b)
+            st, op, fns, gl, pr = nested_efun(i, outer, inner, '%s (); error ("boom%d\\n");' % (f, i),
+                                             "(call local %s 0 0 %s) (raise boom%d)" % (t, " ".join(o), i))
+            self.files[fctx]["fns"] += fns
+            self.globals += gl
+            self.prep += pr
+            stmts += st
+            ops.append(op)
         elif k == "selfdestruct":
             # an object destructs itself and goes on executing: the frames that are unwound (or returned through) belong to a
             # destructed object
@@ -404,6 +424,49 @@ def pos(text, lit, start=0):
     return m.start() if m else -1
 
 
+# ---- nested efun-callback families: efun X whose callback runs efun Y (X again, or sort_array), the inner one fails, the
+# ---- OUTER callback catches the error and the outer efun goes on; afterwards the outer result is compared by value
+# name: (LPC call with %s = function name, callback parameters, callback return expression, arity, tmp slots, handler slot?,
+#        how the result is rendered, rendered by-value result)
+NEST = {
+    "sort": ("sort_array (({ 3, 1, 2 }), (: %s :))", "int x, int y", "x - y", 2, 2, True,
+             'implode (map (a, (: "" + $1 :)), ",")', "1,2,3"),
+    "map": ("map (({ 1, 2, 3 }), (: %s :))", "int x", "x", 1, 3, False, 'implode (map (a, (: "" + $1 :)), ",")', "1,2,3"),
+    "filter": ("filter (({ 1, 2, 3 }), (: %s :))", "int x", "1", 1, 3, False, 'implode (map (a, (: "" + $1 :)), ",")', "1,2,3"),
+    "mapmap": ("map (([ 1 : 2, 3 : 4, 5 : 6 ]), (: %s :))", "int x, int y", "y", 2, 3, False,
+               '"" + sizeof (a) + "/" + (a[1] + a[3] + a[5])', "3/12"),
+    "filtermap": ("filter (([ 1 : 2, 3 : 4, 5 : 6 ]), (: %s :))", "int x, int y", "1", 2, 3, False,
+                  '"" + sizeof (a) + "/" + (a[1] + a[3] + a[5])', "3/12"),
+    "unique": ("unique_array (({ this_object (), this_object (), this_object () }), (: %s :))", "object x", "1", 1, 2, True,
+               '"" + sizeof (a) + "/" + sizeof (a[0])', "1/3"),
+    "uniquemap": ("unique_mapping (({ 7, 8, 9 }), (: %s :))", "int x", "1", 1, 2, True,
+                  '"" + sizeof (a) + "/" + sizeof (a[1])', "1/3"),
+}
+
+
+def nested_efun(uid, outer, inner, inner_body, inner_ops, later=2):
+    """LPC + ops of `outer` whose FIRST callback runs `inner` inside a catch; the inner callback runs `inner_body` (which
+    fails); the outer efun then makes its remaining callbacks.  Returns (statements, ops, functions, globals, prep)."""
+    ocall, opar, oret, oar, otmp, ohandler, orender, owant = NEST[outer]
+    icall, ipar, iret, iar, itmp, ihandler, _, _ = NEST[inner]
+    fi, fo, flag = "nfi%d" % uid, "nfo%d" % uid, "nflag%d" % uid
+    ity = "mixed" if inner in ("unique",) else "int"
+    fns = ["%s %s (%s) { %s return %s; }" % (ity, fi, ipar, inner_body, iret),
+           "int %s (%s) { mixed e; mixed b; object p0; if (!%s) { %s = 1; p0 = this_player (); e = catch (b = %s); "
+           "VL (\"catch \" + e + (e && this_player () != p0 ? \" cg-changed\" : \"\")); } return %s; }"
+           % (fo, opar, flag, flag, icall % fi, oret)]
+    stmts = ['a = %s; s = %s; VL ("say r=" + s + (s != "%s" ? " result-mismatch" : ""));' % (ocall % fo, orender, owant)]
+    inner_cb = "(cb fplocal t %d %d %s)" % (iar, iar, inner_ops)
+    inner_efun = "(tmp %d %s)" % (itmp, ("(handler %d %s)" % (1000 + uid, inner_cb)) if ihandler else inner_cb)
+    first = "(cb fplocal t %d %d (catch %s) (saycatch))" % (oar, oar, inner_efun)
+    rest = " ".join("(cb fplocal t %d %d)" % (oar, oar) for _ in range(later))
+    body = "%s %s" % (first, rest)
+    # (rendering an array result maps a functional over it: three more callbacks, made by an efun)
+    render = "(tmp 3 (cb functional t 1 1) (cb functional t 1 1) (cb functional t 1 1)) " if "map (a," in orender else ""
+    ops = "(tmp %d %s) %s(say r=%s)" % (otmp, ("(handler %d %s)" % (2000 + uid, body)) if ohandler else body, render, owant)
+    return stmts, ops, fns, ["int %s;" % flag], ["%s = 0;" % flag]
+
+
 def hexs(s):
     return s.encode().hex()
 
@@ -552,10 +615,10 @@ class C05(Prop):
                 "NV.C05.tie_context_fields_saved", "NV.C05.tie_every_field_saved_is_restored", "NV.C05.tie_context_globals",
                 "NV.C05.tie_frame_registers", "NV.C05.tie_frame_saved_is_restored", "NV.C05.tie_all_globals_classified",
                 "NV.C05.tie_classes_match_source", "NV.C05.tie_command_giver_stack", "NV.C05.tie_callback_handlers",
-                "NV.C05.tie_backend_shapes", "NV.C05.tie_catch_value_order", "NV.C05.tie_handler_flag", "NV.C05.tie_error_handler_slots", "NV.C05.tie_vital_destruct_order", "NV.C05.tie_error_handlers_are_leaves",
+                "NV.C05.tie_backend_shapes", "NV.C05.tie_catch_value_order", "NV.C05.tie_handler_flag", "NV.C05.tie_error_handler_slots", "NV.C05.tie_vital_destruct_order", "NV.C05.tie_error_handlers_are_leaves", "NV.C05.tie_handler_effects",
                 "NV.C05.vital_records_before_blanking", "NV.C05.vital_nested_refused", "NV.C05.popN_fixNames", "NV.C05.vitalFinish_good", "NV.C05.tie_handler_limit_state", "NV.C05.tie_hook_globals_apart", "NV.C05.raise_sets_catch_value_after_handler",
                 "NV.C05.driver_restores", "NV.C05.model_satisfies_spec_driver",
-                "NV.C05.backend_cycle_restores", "NV.C05.model_satisfies_spec_backend", "NV.C05.restoreContext_verb", "NV.C05.restoreContext_runs_fixNames", "NV.C05.exec_vk", "NV.C05.execCore_vk", "NV.C05.driver_keeps_last_verb",
+                "NV.C05.backend_cycle_restores", "NV.C05.model_satisfies_spec_backend", "NV.C05.restoreContext_verb", "NV.C05.restoreContext_runs_fixNames", "NV.C05.popN_unlinks_efun_contexts", "NV.C05.exec_vk", "NV.C05.execCore_vk", "NV.C05.driver_keeps_last_verb",
                 "NV.C05.top_keeps_last_verb", "NV.C05.catchFinish_vk",
                 "NV.C05.saveContext_verb", "NV.C05.judgeObs_nil_of_core", "NV.C05.hbOffStep_spec", "NV.C05.raiseInner_uncaught_switches_heart_beat_off", "NV.C05.hbOffStep_same", "NV.C05.verbFinish_good", "NV.C05.hbFinish_good",
                 "NV.C05.safeFpFinish_total", "NV.C05.safeApply_all_arities", "NV.C05.call_all_arities", "NV.C05.safeFinish_total",
@@ -576,7 +639,8 @@ class C05(Prop):
                         "NV.C05.throw_does_not_reset_guards", "NV.C05.error_resets_guards_example",
                         "NV.C05.caught_throw_in_load_restores_guards", "NV.C05.catch_in_create_keeps_depth",
                         "NV.C05.caught_throw_in_dhook_restores_guards", "NV.C05.catch_at_limit_keeps_chain",
-                        "NV.C05.safe_apply_at_limit_keeps_chain", "NV.C05.heart_beat_error_switches_it_off", "NV.C05.failed_master_reload_restores_name", "NV.C05.nested_master_destruct_keeps_name",
+                        "NV.C05.safe_apply_at_limit_keeps_chain", "NV.C05.heart_beat_error_switches_it_off", "NV.C05.failed_master_reload_restores_name", "NV.C05.nested_sort_error_unlinks_inner_context",
+                        "NV.C05.after_caught_inner_error_the_outer_context_is_current", "NV.C05.nested_master_destruct_keeps_name",
                         "NV.C05.safe_apply_error_in_heart_beat_switches_it_off"]
     consts = [("frameFunction", "FRAME_FUNCTION"), ("frameFunp", "FRAME_FUNP"), ("frameCatch", "FRAME_CATCH"),
               ("frameFake", "FRAME_FAKE"), ("frameMask", "FRAME_MASK"),
@@ -611,7 +675,7 @@ class C05(Prop):
             "call_other incl. surplus arguments, function pointers of every kind, map/filter/sort_array/unique_array "
             "callbacks, catch in catch, error()/throw(), safe applies via sprintf(\"%O\"), create() in load_object/new, "
             "input_to, enable_commands, init() hooks via move_object, move_or_destruct() hooks via destruct, command verbs via command(), "
-            "notify_fail() functions, map/filter over mappings, unique_mapping, map over strings, implode with a function, message(), self-destructing "
+            "notify_fail() functions, map/filter over mappings, unique_mapping, map over strings, implode with a function, message(), nested efun callbacks (efun X running X / sort_array in its callback, inner error or throw caught by the outer callback, outer result compared by value), self-destructing "
             "objects, destruct of the master with a reload that fails (refused / error, throw or injected fault in create() of the new copy / nested),  the program as a callback of the real call_out() sweep and as one "
             "cycle of the real backend() (a user command, a heart beat, reset(), clean_up()); master error handlers that run catch()/throw()/callbacks; arity -3..+3 through call_other / function pointers / the driver's "
             "safe_apply and safe_call_function_pointer with 0 or 4 locals; every frame kind at exactly limit-2 / limit-1 / limit "
@@ -624,6 +688,7 @@ class C05(Prop):
                    "the oracle clause for last_verb (qv) is proved for evaluations started outside a command (exec_vk: kept or cleared; driver_keeps_last_verb, top_keeps_last_verb); the probe / heart-beat / catch-value clauses are checked on traces",
                    "'names of the vital objects after = before' is an oracle clause and compared on every trace; proved at state level (restoreContext_runs_fixNames), not through the induction over all programs",
                    "the simul_efun branch of destruct_object's vital block (refused from LPC while a master exists)",
+                   "the file-scope context lists of sort_array / unique_array / unique_mapping are modelled as ONE list (efunCtx; handlers unlink the head): proved at state level (popN_unlinks_efun_contexts) + witnesses + tie_handler_effects + nested efun-callback cases on the driver (ASan, by-value result); 'the list after = the list before' is not proved through the induction over all programs, the efun's by-value result is an oracle clause only",
                    "call-back sites not driven: f_objects, object_present, fixed master applies (valid_read / valid_seteuid / creator_file run but have no generated body), print_prompt, snoop, logon, ed, parse_command, virtual objects",
                    "preload_objects, console-mode resume, do_slow_shutdown recovery points; varargs callees; get_char"]
 
@@ -740,6 +805,10 @@ class C05(Prop):
         return text
 
     # ---- translator: which global variables does an error unwinding have to put back? -----------------------------
+    # what the registered handlers are known to put back (reviewed; `tie_handler_effects`)
+    HANDLER_EFFECTS = [("sort_array_unlink", "sort_array_ftc"), ("sort_array_unlink", "sort_ctx_top"),
+                       ("unique_array_error_handler", "g_u_list"), ("unique_mapping_error_handler", "g_u_m_list"),
+                       ("fix_object_names", "master_ob->name"), ("fix_object_names", "simul_efun_ob->name")]
     CORE_OBJECTS = ["interpret", "frame", "stack", "error_context", "apply", "simulate"]
     CALLBACKS = r"\b(call_function_pointer|apply|apply_master_ob|call_efun_callback|call_function|error)\s*\("
 
@@ -968,6 +1037,29 @@ class C05(Prop):
                             continue
                         if prim.search(hb) or re.search(r"\berror\s*\(", hb):
                             bad_handlers.append(h)
+        # (8c) what every registered handler puts back: the file-scope state it assigns (each efun that keeps C state in a
+        #      global across its callbacks registers a handler that unlinks / restores it when the stack is unwound)
+        assigns = []
+        for f, h in slots:
+            for root in ("src", "lib"):
+                for dp, dn, fn in os.walk(os.path.join(E.REPO, root)):
+                    if f in fn:
+                        try:
+                            hb = body(os.path.relpath(os.path.join(dp, f), E.REPO), h)
+                        except X.TieBroken:
+                            continue
+                        decl = set(re.findall(r"\b(?:\w+\s+)+\**\s*(\w+)\s*(?:=|;|,)", re.sub(r"[{};]\s*(\w+)\s*=", ";", hb)))
+                        local = set(re.findall(r"(?:^|[{;])\s*(?:struct\s+)?\w+\s+\**(\w+)\s*(?:=[^;]*)?(?:,\s*\**\w+\s*(?:=[^;]*)?)*;", hb))
+                        local |= set(re.findall(r",\s*\*?(\w+)\s*;", hb))
+                        for lv in re.findall(r"(?:^|[{;)])\s*([A-Za-z_][\w]*(?:->\w+|\.\w+)*)\s*=[^=]", hb):
+                            if lv.split("->")[0].split(".")[0] not in local:
+                                assigns.append((h, lv))
+        assigns = sorted(set(assigns))
+        out.append("/-- (handler of a T_ERROR_HANDLER slot, file-scope state it assigns when it runs) -/\n"
+                   "def handlerAssigns : List (String × String) := %s" % pairs(assigns))
+        for want in self.HANDLER_EFFECTS:
+            if want not in assigns:
+                E.log("C05 translator: handler %s no longer assigns %s (the state an abandoned efun leaves behind)" % want)
         out.append("/-- handlers of T_ERROR_HANDLER slots that call back into LPC or raise an error -/\n"
                    "def errorHandlersThatCallBack : List String := %s" % lst(sorted(set(bad_handlers))))
         # (9) destruct_object of a vital object: slot pushed and both names recorded BEFORE the name is blanked; the handler
@@ -1166,6 +1258,15 @@ class C05(Prop):
                                     (CATCHSTMT % lit) if outer else ("a = %s;" % lit),
                                     ("(catch %s) (saycatch)" % o) if outer else o,
                                     fns=['int f1 () { error ("boom1\\n"); return 1; }']))
+        # nested efun callbacks: X in X and sort_array in X, the inner one fails by error() / throw(), caught by the outer callback
+        uid = 0
+        for outer in sorted(NEST):
+            for inner in sorted(set([outer, "sort"])):
+                for how, ib, iops in (("error", 'error ("boom1\\n");', "(raise boom1)"), ("throw", 'throw ("t1");', "(throw t1)"),
+                                      ("ok", "", "")):
+                    uid += 1
+                    st, op, fns, gl, pr = nested_efun(uid, outer, inner, ib, iops)
+                    B.append(fixed_case("b-nested-%s-in-%s-%s" % (inner, outer, how), " ".join(st), op, fns=gl + fns, prep=" ".join(pr)))
         # last_verb (query_verb()): an error in a verb function must not leave it set after the command
         for name, stmt, bops in (("say", 'VL ("say x");', "(say x)"), ("raise", 'error ("boom1\\n");', "(raise boom1)"),
                                  ("throw", 'throw ("t1");', "(throw t1)")):
@@ -1233,6 +1334,7 @@ class C05(Prop):
             ("probe-destruct", [out(["done 1"], pr=probe.replace("d=0", "d=*Only this_object() can be destructed"))], "probe fault differs"),
             ("half-install", [out(["caught nf", "catch nf", "done 1"], pr=probe.replace("in=0", "in=1"))], "half-install"),
             ("catch-value", [out(["caught *boom1", "catch *other", "done 1"])], "catch-value"),
+            ("efun-result", [out(["caught *boom1", "catch *boom1", "say r=3,1,2 result-mismatch", "done 1"])], "efun-result"),
             ("catch-value-zero", [out(["caught *boom1", "catch 0", "done 1"])], "catch-value"),
             ("catch-value-one", [out(["caught *boom1", "catch 1", "done 1"])], "catch-value"),
             ("catch-value-stale", [out(["catch *boom1", "done 1"])], "catch-value"),
